@@ -383,8 +383,21 @@ def r8_checked_arith(ctx, rid='C03.R8'):
     r.stat('raw_arith_on_window', n)
 
 
+def r9_window_update_queue(ctx):
+    """a stream popped from pending_window_updates is processed (transition closure) or stays queued"""
+    from . import C05
+
+    def only(F, fn, ev):
+        f = F.fns.get(fn)
+        if not f or 'pop' not in ev:
+            return False
+        return any(t['fn'].startswith(P + 'store::Queue::pop') and t['ga'] and t['ga'][0].endswith('NextWindowUpdate') for bi, t in f.calls())
+    C05.r3_transition_discipline(ctx, 'C03.R9', only_event=only)
+    ctx.rules[-1].text = 'a stream popped from pending_window_updates is always processed (its WINDOW_UPDATE is sent or it is re-queued), never forgotten'
+
+
 def run(ctx):
-    for fn in (r1_charge_credit, r2_caller_credits, r3_every_frame_charged, r4_ledgers, r5_amounts, r6_window_update, r7_drop_paths, r8_checked_arith):
+    for fn in (r1_charge_credit, r2_caller_credits, r3_every_frame_charged, r4_ledgers, r5_amounts, r6_window_update, r7_drop_paths, r8_checked_arith, r9_window_update_queue):
         rr_before = len(ctx.rules)
         try:
             fn(ctx)
